@@ -299,7 +299,8 @@ def native_namespace(R=None):
     ns = {"implies": lambda a, b: (not a) or b, "math": math,
           "fullmatch": lambda pat, s: isinstance(s, str) and _re.fullmatch(pat, s) is not None,
           "fresh": lambda x: True,
-          "is_prefix": lambda a, b: list(b[:len(a)]) == list(a)}
+          "is_prefix": lambda a, b: list(b[:len(a)]) == list(a),
+          "seq": lambda x: list(x)}
     for name, sf in R.specfns.items():
         def mk(sf=sf):
             def f(*args):
